@@ -55,15 +55,24 @@ def _check_main(run, P):
              "conditions, then-with-then and else-with-else, earlier first", minimum=3)
     run.rule("C06.const", "condition is True selects then, is False selects else_",
              minimum=2)
-    run.rule("C06.post", "post pass: then-null gives IfThen(not cond, else_), "
-             "else-null gives IfThen(cond, then)", minimum=2)
-    run.rule("C06.pre", "pre pass: IfThen(c, b) becomes IfThenElse(c, b, null)",
-             minimum=1)
+    run.rule("C06.post", "null-dropping pass, in every combination of children that are / "
+             "become NullASTNodes (path-sensitive dataflow over sets of worlds): each handler "
+             "returns a tree that runs exactly the simplified children that are not null, each "
+             "under the guard it had (then: the condition, else: LogicalNot of it, loop body: "
+             "the same loop header); no NullASTNode is left where lower_node would meet it; "
+             "node classes without a handler cannot reach the pass", minimum=5)
+    run.rule("C06.pre", "normalising pass: every handler of its own returns a node of "
+             "another class that runs the simplified children under their guards "
+             "(IfThen(c, b) becomes IfThenElse(c, b, null))", minimum=1)
     run.rule("C06.identity", "identity-mapper handlers rebuild each node with every "
              "constructor slot fed from the same slot of the old node", minimum=8)
     run.rule("C06.flat", "flat_Block keeps the order of its arguments and of the "
              "children of nested blocks", minimum=1)
 
+    run.rule("C06.ends", "a work-list is consumed from one end only", minimum=1)
+    run.rule("C06.handlers", "handlers of the identity and the normalising pass: same "
+             "dataflow as C06.post - the returned tree runs the simplified children under "
+             "their guards", minimum=5)
     run.rule("C06.flagrule", "the single-definition rule for condition flags, which "
              "makes merging sound, is applied to every phase and counts writer "
              "statements (shared with C10.calls / C10.flag)", minimum=8)
@@ -77,7 +86,7 @@ def _check_main(run, P):
     _lost(run, P)
     _ifthenelse(run, P)
     _merge(run, P)
-    _post_pre(run, P)
+    _handlers(run, P)
     _collapse_all(run, P)
     _identity(run, P)
     _flat(run, P)
@@ -162,6 +171,13 @@ def _splice_and_pop(run, P, m):
                 run.ob("C06.splice", f, x, ok,
                        why="a stack consumed with pop() must be extended with the "
                            "reversed sequence to keep order")
+        for q in sorted(dq):
+            if q in ends:
+                run.ob("C06.ends", f, f.node, len(ends[q]) == 1,
+                       construct=f"work-list '{q}' is consumed from one end "
+                                 f"({'/'.join(sorted(ends[q]))})",
+                       why="taking one child from the other end moves the last statement "
+                           "of a block in front of the others")
         _pop_guard(run, f, dq)
     if n_deque_funcs == 0:
         raise AnalysisError("no work-list deque found in dag_ast.py")
@@ -694,71 +710,60 @@ def _merge(run, P):
 # }}}
 
 
-def _post_pre(run, P):
-    f = P.func(f"{MOD}.ASTPostSimplifyMapper.map_IfThenElse")
-    # variable roles
-    roles = {}
-    for s in func_body_stmts(f.node):
-        if isinstance(s, ast.Assign) and len(s.targets) == 1 \
-                and isinstance(s.targets[0], ast.Name):
-            v = s.value
-            if isinstance(v, ast.Call) and dotted(v.func) == "self.rec" \
-                    and isinstance(v.args[0], ast.Attribute):
-                roles[s.targets[0].id] = ("arm", v.args[0].attr)
-            if isinstance(v, ast.Call) and dotted(v.func) == "isinstance" \
-                    and isinstance(v.args[0], ast.Name) \
-                    and "NullASTNode" in ast.unparse(v.args[1]):
-                roles[s.targets[0].id] = ("isnull", v.args[0].id)
-    from .util import path_conditions
-    rets = [s for s in func_body_stmts(f.node)
-            if isinstance(s, ast.Return) and isinstance(s.value, ast.Call)
-            and dotted(s.value.func) == "IfThen"]
-    if len(rets) < 2:
-        raise AnalysisError("ASTPostSimplifyMapper.map_IfThenElse: two IfThen returns expected")
-    aliases = {}
-    for s in ast.walk(f.node):
-        if isinstance(s, ast.Assign) and len(s.targets) == 1 and isinstance(s.targets[0], ast.Name) \
-                and isinstance(s.value, ast.Attribute) and s.value.attr == "condition":
-            aliases[s.targets[0].id] = s.value
-    seen_arms = set()
-    for s in rets:
-        slots = _ctor_args(P, s.value, "IfThen")
-        cond, body = slots.get("condition"), slots.get("then")
-        negated = isinstance(cond, ast.Call) and dotted(cond.func) == "LogicalNot"
-        base = cond.args[0] if negated else cond
-        if isinstance(base, ast.Name) and base.id in aliases:
-            base = aliases[base.id]
-        base_ok = isinstance(base, ast.Attribute) and base.attr == "condition" \
-            and dotted(base.value) == f.params[1]
-        body_role = roles.get(body.id) if isinstance(body, ast.Name) else None
-        # which arm is null on the path to this return?
-        null_arm = None
-        for t, v in path_conditions(f.node, s):
-            if v and roles.get(t, ("",))[0] == "isnull":
-                null_arm = roles.get(roles[t][1], (None, None))[1]
-        ok = base_ok and body_role is not None and null_arm is not None and (
-            (null_arm == "then" and negated and body_role[1] == "else_") or
-            (null_arm == "else_" and not negated and body_role[1] == "then"))
-        seen_arms.add(null_arm)
-        run.ob("C06.post", f, s, ok,
-               construct=f"{norm(s, 90)} when the {null_arm} arm is null",
-               why="dropping an empty arm must keep the polarity of the remaining one: the "
-                   "condition is expr.condition itself, or LogicalNot of it (flipping a "
-                   "comparison operator instead is not the same test for NaN operands)")
-    g = P.func(f"{MOD}.ASTPreSimplifyMapper.map_IfThen")
-    rets = [s for s in func_body_stmts(g.node) if isinstance(s, ast.Return)]
-    ok = False
-    if len(rets) == 1 and isinstance(rets[0].value, ast.Call) \
-            and dotted(rets[0].value.func) == "IfThenElse":
-        slots = _ctor_args(P, rets[0].value, "IfThenElse")
-        c, t, e = slots.get("condition"), slots.get("then"), slots.get("else_")
-        ok = isinstance(c, ast.Attribute) and c.attr == "condition" \
-            and isinstance(t, ast.Call) and dotted(t.func) == "self.rec" \
-            and isinstance(t.args[0], ast.Attribute) and t.args[0].attr == "then" \
-            and isinstance(e, ast.Call) and dotted(e.func) == "NullASTNode"
-    run.ob("C06.pre", g, rets[0] if rets else g.node, ok,
-           why="normalising 'if' to 'if/else' must keep condition and body and add "
-               "an empty else")
+def _handlers(run, P):
+    from . import c06_post
+    single, listy = c06_post.child_slots(P)
+    node_classes = {c.name: c for c in P.subclasses(P.cls(f"{MOD}.ASTNode"), modules={MOD})}
+    slots_of = {name: _slots(P, name) for name in node_classes}
+    with_children = {name for name, sl in slots_of.items()
+                     if any(x.lstrip("*") in single | listy for x in sl)}
+    if len(with_children) < 4:
+        raise AnalysisError(f"node classes with children: {sorted(with_children)}")
+    passes = (("ASTIdentityMapper", False), ("ASTPreSimplifyMapper", False),
+              ("ASTPostSimplifyMapper", True))
+    for cname, last in passes:
+        C = P.cls(f"{MOD}.{cname}")
+        for name, f in sorted(C.methods.items()):
+            top = name == "__call__"
+            if not top and not (name.startswith("map_") and name[4:] in with_children):
+                continue
+            found, n_ret, n_w, kinds = c06_post.analyse(P, f, name[4:] if not top else None, single, listy,
+                                                 slots_of, top=top, want_nullfree=last)
+            rule = "C06.post" if last else "C06.handlers"
+            run.ob(rule, f, f.node, not found,
+                   construct=f"{cname}.{name}: {n_ret} return(s) decided in {n_w} world(s)",
+                   why=found[0][1] if found else "every return runs the children the node ran")
+            seen = set()
+            for node, what in found:
+                if what in seen:
+                    continue
+                seen.add(what)
+                run.ob(rule, f, node, False, construct=f"{cname}.{name}: {what}",
+                       why="the simplified program does not run the statements of the original "
+                           "(or code generation raises on a NullASTNode)")
+            if cname == "ASTPreSimplifyMapper":
+                own = name[4:]
+                run.ob("C06.pre", f, f.node, not found and own not in kinds and "arm" not in kinds,
+                       construct=f"{cname}.{name}: no {own} node is returned "
+                                 f"(returns: {', '.join(sorted(kinds))})",
+                       why=f"the later passes have no handler for {own}: one that survives keeps "
+                           f"a NullASTNode body, or is not merged with its neighbours")
+    # classes the last pass has no handler for must not reach it
+    post = P.cls(f"{MOD}.ASTPostSimplifyMapper")
+    simp = P.cls(f"{MOD}.ASTSimplifyMapper")
+    for name in sorted(with_children):
+        if f"map_{name}" in post.methods:
+            continue
+        pre = P.cls(f"{MOD}.ASTPreSimplifyMapper").methods.get(f"map_{name}")
+        removed = pre is not None and not any(
+            isinstance(x, ast.Call) and dotted(x.func) in (name, "type")
+            for x in ast.walk(pre.node))
+        rebuilt = [f.fq for f in simp.methods.values() for x in ast.walk(f.node)
+                   if isinstance(x, ast.Call) and dotted(x.func) == name]
+        run.ob("C06.post", post, None, removed and not rebuilt,
+               construct=f"{name} has no handler in the last pass: the first pass rewrites it and "
+                         f"the merge pass builds none",
+               why=f"the inherited handler would keep {name}(c, NullASTNode())")
 
 
 def _collapse_all(run, P):
